@@ -74,6 +74,14 @@ def handle (op : String) (args res : List String) : Option Verdict :=
     | some [a, f, xy, xx, yy, yx], some [v] =>
       verdictOf "DAuxLatitude::DE" ([cmp "DE" false v (DE RFm RDm (ellOf (ex a) (ex f)) (ex xy, ex xx) (ex yy, ex yx))].filterMap id)
     | _, _ => .bad "parse"
+  | "rh_datanhee" => some <|
+    match args.mapM pfl, res.mapM pfl with
+    | some [a, f, x, y], some [v] =>
+      if !(x.isFinite && y.isFinite) then .skip "non-finite argument: shelter branches are judged by the harness" else
+      if (x != 0 && x.abs < 1e-150) || (y != 0 && y.abs < 1e-150) then .skip "underflow regime" else
+      let E := ellOf (ex a) (ex f)
+      verdictOf "DAuxLatitude::Datanhee" ([cmp "Datanhee" false v (Datanhee E.f E.e E.e1 E.fm1 (ex x) (ex y))].filterMap id)
+    | _, _ => .bad "parse"
   | "rh_drect" => some <|
     match args.mapM pfl, res.mapM pfl with
     | some [a, f, p1y, p1x, p2y, p2x, m1y, m1x, d1, m2y, m2x, rr], some [v] =>
